@@ -45,7 +45,8 @@ def rect(env, num_x, num_y):
         env.eq("C14", "getFullMesh from the right half reproduces the full mesh", env.call(getFullMesh, None, full[:, nyh - 1:, :]), full)
 
 
-@job("c14.crm", ("C14",), cfgs=[dict(num_x=2, num_y=5, s=0.0, c=0.0), dict(num_x=3, num_y=7, s=0.5, c=1.0), dict(num_x=3, num_y=5, s=1.0, c=0.5, _tier=T)],
+@job("c14.crm", ("C14",), cfgs=[dict(num_x=2, num_y=5, s=0.0, c=0.0), dict(num_x=3, num_y=7, s=0.5, c=1.0), dict(num_x=5, num_y=5, s=0.0, c=0.3),    # several interior chordwise rows
+                                 dict(num_x=3, num_y=5, s=1.0, c=0.5, _tier=T)],
      ranges=RG, cost=5)
 def crm(env, num_x, num_y, s, c):
     """CRM planform (tabulated data interpolated with np.interp: the spacing blends are concrete per configuration, the
